@@ -529,7 +529,10 @@ func c10Inotify(cs *Case) {
 	must(os.MkdirAll(dir, 0o755))
 	name := "target." + enc
 	target := filepath.Join(dir, name)
-	specA, specB := c10Spec("A", big), c10Spec("B", big)
+	// the two contents differ in size and neither is a prefix of the other
+	specA, specB := c10Spec("A", big), c10Spec("B", !big)
+	specB.Devices = append(specB.Devices, specs.Device{Name: "extra", ContainerEdits: specs.ContainerEdits{Env: []string{"ONLY_IN=B"}}})
+	normA, normB := normJSON(specA), normJSON(specB)
 	cache, _ := cdi.NewCache(cdi.WithSpecDirs(dir), cdi.WithAutoRefresh(false))
 	// learn the two admissible contents
 	must(cache.WriteSpec(cloneSpec(specA), name))
@@ -599,7 +602,8 @@ func c10Inotify(cs *Case) {
 	var readerBad []string
 	var rbMu sync.Mutex
 	var observations [3]atomic.Int64 // absent, A, B
-	for rd := 0; rd < 3; rd++ {
+	var libraryReads atomic.Int64
+	for rd := 0; rd < 4; rd++ {
 		wg.Add(1)
 		go func(rd int) {
 			defer wg.Done()
@@ -615,8 +619,29 @@ func c10Inotify(cs *Case) {
 						readerBad = append(readerBad, fmt.Sprintf("a concurrently refreshing cache reports errors: %v", errs))
 					}
 					if d != nil {
-						if e := d.ContainerEdits.Env[0]; e != "CONTENT=A" && e != "CONTENT=B" && len(readerBad) < 5 {
-							readerBad = append(readerBad, "a concurrently refreshing cache resolved the device to neither state: "+e)
+						if got := normJSON(d.Device); got != normJSON(specA.Devices[0]) && got != normJSON(specB.Devices[0]) && len(readerBad) < 5 {
+							readerBad = append(readerBad, "a concurrently refreshing cache resolved the device to neither published definition")
+						}
+					} else if len(readerBad) < 5 {
+						readerBad = append(readerBad, "a concurrently refreshing cache lost the device although the Spec name is never absent")
+					}
+					rbMu.Unlock()
+					continue
+				}
+				if rd == 1 {
+					// the library's own reader: the Spec name is never absent after the first
+					// write, so every read must succeed and yield exactly one of the two Specs
+					rs, err := cdi.ReadSpec(target, 0)
+					libraryReads.Add(1)
+					rbMu.Lock()
+					switch {
+					case err != nil:
+						if len(readerBad) < 5 {
+							readerBad = append(readerBad, "cdi.ReadSpec of the Spec name failed during concurrent overwrites: "+err.Error())
+						}
+					default:
+						if got := normJSON(rs.Spec); got != normA && got != normB && len(readerBad) < 5 {
+							readerBad = append(readerBad, fmt.Sprintf("cdi.ReadSpec returned a Spec that is neither of the two published ones (%d devices)", len(rs.Devices)))
 						}
 					}
 					rbMu.Unlock()
@@ -684,6 +709,7 @@ func c10Inotify(cs *Case) {
 	c.Count("inotify_events", int(total))
 	c.Count("overwrites", n)
 	c.Count("reader_observations", int(observations[1].Load()+observations[2].Load()))
+	c.Count("library_reader_observations", int(libraryReads.Load()))
 	c.Distinct(fmt.Sprintf("inotify|%s|%v", enc, big))
 	for k := range hist {
 		c.Distinct("inotify-event|" + enc + "|" + k)
